@@ -13,9 +13,9 @@ RULE = ("Batches of Hypothesis-generated designs (C01 generator, biased toward b
         "no-connects, port references, arrays, pairs, generator-named modules) plus the examples / built-in generator corpus; each "
         "batch is run by S real subprocesses (S=8 quick, 24 thorough) with drawn PYTHONHASHSEED values, a drawn permutation of the "
         "batch and drawn amounts of unrelated allocation / elaboration before each design; every other worker discards and "
-        "garbage-collects each design before the next one is built (so object addresses are re-used), the rest keep all alive; every third batch also holds sixteen hand-written corner designs (one number written four ways in generator "
+        "garbage-collects each design before the next one is built (so object addresses are re-used), the rest keep all alive; every third batch also holds seventeen hand-written corner designs (one number written four ways in generator "
         "parameters, one bundle port reference used twice on an instance, reference cycles within an instance, set- and set-of-sets-valued generator "
-        "parameters, parameter values from inexact prefixed division, Sky130 / GF180 compiles of one device size written two ways, two generators over one param-class called with 0.0 / -0.0, a generator parameter object placed on the address of a dead one); the unrelated earlier work includes prefixed-number arithmetic. For every design all workers must "
+        "parameters, parameter values from inexact prefixed division, Sky130 / GF180 compiles of one device size written two ways, two generators over one param-class called with 0.0 / -0.0, a generator parameter object placed on the address of a dead one, one sub-bundle reference driving several bundle ports of an instance); the unrelated earlier work includes prefixed-number arithmetic. For every design all workers must "
         "report the same SHA-256 of Package.SerializeToString(deterministic=True) and of the spice, spectre and verilog netlist "
         "text (a netlister exception must be the same class everywhere). Non-trivial = design with a bundle / anonymous-bundle "
         "connection, no-connect, port reference, array or pair; distinct by canonical spec hash.")
@@ -77,7 +77,7 @@ def main(tier):
                 items += [{"key": "p%d" % k, "pdk_item": k} for k in range(4)]  # PDK-compiled designs (sample, Sky130, GF180, ASAP7)
             items += [{"key": "ch%d_%d" % (bi, k), "churn": k} for k in range(4)]
             if bi % 3 == 0:
-                items += [{"key": "sh%d_%d" % (bi, k), "shape": k} for k in range(16)]
+                items += [{"key": "sh%d_%d" % (bi, k), "shape": k} for k in range(17)]
             batches.append((items, chunk))
             for w in range(S):
                 order = list(range(len(items)))
@@ -142,7 +142,7 @@ def replay(case):
         elif "pdk_item" in case:
             items = [{"key": "x", "pdk_item": case["pdk_item"]}]
         elif "shape" in case:
-            items = [{"key": "x", "shape": case["shape"]}] + [{"key": "n%d" % k, "shape": k} for k in range(16) if k != case["shape"]]
+            items = [{"key": "x", "shape": case["shape"]}] + [{"key": "n%d" % k, "shape": k} for k in range(17) if k != case["shape"]]
         elif "churn" in case:
             items = [{"key": "x", "churn": case["churn"]}] + [{"key": "n%d" % k, "churn": 10 + k} for k in range(6)]
         else:
